@@ -33,7 +33,6 @@ from .errors import (
     TimeLimitError,
 )
 
-
 # Largest element count (or byte length) the array constructors allocate
 _MAX_ARRAY_LENGTH = 2**28
 
